@@ -72,6 +72,12 @@ let register (h : (string, string list -> string) Hashtbl.t)
      backup_step <file hex> <backup hex|none> <complete 0|1> <md5-of hex|none> <prot hex>
                  <event: E:<hex> | R:<out hex|FAIL>:<K0|K1.j|K2|K3|C>>
      -> admissible file backup complete md5 prot' *)
+  Hashtbl.replace h "check_exit" (fun args ->
+    match args with
+    | [bits] ->
+      let l = List.init (String.length bits) (fun i -> bits.[i] = '1') in
+      string_of_int (int_of_z (check_exit l))
+    | _ -> failwith "check_exit args");
   Hashtbl.replace h "backup_step" (fun args ->
     match args with
     | [fl; bk; cpl; md; prot; ev] ->
